@@ -149,6 +149,12 @@ def check_C01(tier, seed):
                 snap[f] = v
                 scripts.append([mk("create", snap=snap), mk("fixpoint", t=1), mk("update", t=1, snap=bases["full"]), mk("update", t=1, snap=snap),
                                 mk("fixpoint", t=1)])
+        # waveforms whose stored encoding ends exactly on / next to a chunk boundary of the compression loop (1.x high-resolution
+        # waveform: 30 + 6 n bytes; DeflateLoop.tla: the boundary class N = k * Chunk)
+        for n in (8186, 8187, 8188, 16379):
+            snap = dict(bases["full"])
+            snap["waveform"] = {"n": n, "seed": 7, "opaque": True}
+            scripts.append([mk("create", snap=snap), mk("fixpoint", t=1), mk("update", t=1, snap=bases["min"]), mk("update", t=1, snap=snap), mk("fixpoint", t=1)])
         # snapshots that must be rejected
         bad = [dict(bases["full"], relative_path=[]), dict(bases["full"], relative_path=["noextension"]),
                dict(bases["full"], hot_cues=[[{"label": "c", "off": "40c3880000000000"}]] * 9),
